@@ -300,3 +300,13 @@ func termIs(t *Term, wants ...string) bool {
 	}
 	return true
 }
+
+// ValueTerm returns the term of a value inside f (parameters as $i).
+func (c *Ctx) ValueTerm(f *ssa.Function, v ssa.Value) *Term {
+	tm := &termer{c: c}
+	env := map[ssa.Value]*Term{}
+	for i, p := range f.Params {
+		env[p] = T(fmt.Sprintf("$%d", i))
+	}
+	return tm.term(v, env, 0)
+}
